@@ -30,7 +30,7 @@ def mk(rng, kind, t, filt, stop, ml, rich):
          "custom_name": bool(rich and rng.random() < 0.5),
          "options": None, "indent": None, "graph": None, "gname": None, "nattr": {}, "eattr": [], "etype": [],
          "edefault": "-->" if kind.startswith("mermaid") else "->", "tofile": bool(rich and rng.random() < 0.2),
-         "embed": rng.random() < 0.34}
+         "embed": rng.random() < 0.34, "slots": rng.random() < 0.15}
     if rich:
         if rng.random() < 0.5:
             c["options"] = rng.choice([[], ["rankdir=LR;"], ['node [shape="box"];', "x=1"]])
